@@ -434,8 +434,8 @@ func (rn *runner) check(p para, c config, seed uint64) error {
 					rn.seen = map[string]int{}
 				}
 				rn.seen[jclause+"|"+key]++
-				rn.out.Hit("classified:" + key)
-				if rn.seen[jclause+"|"+key] > 2 {
+				rn.out.Hit("classified:" + key + ":" + e.name)
+				if rn.seen[jclause+"|"+key] > 1 {
 					continue
 				}
 			}
@@ -658,10 +658,11 @@ func Run(tier string, seed uint64, modelPath, repo string, out *res.Result) erro
 		o     genOpts
 		mode  string
 	}{
-		{"J:nested-end-edges", 25, genOpts{maxLeaves: 6, maxWord: 6, spans: true, maxDepth: 3}, "normal"},
+		{"J:last-child-nesting", 15, genOpts{}, "nest"},
+		{"J:nested-end-edges", 15, genOpts{maxLeaves: 6, maxWord: 6, spans: true, maxDepth: 3}, "normal"},
 		{"J:wrap-modes", 25, genOpts{maxLeaves: 6, maxWord: 10, spans: true, maxDepth: 2}, "wrap"},
 		{"J:valign", 25, genOpts{maxLeaves: 6, maxWord: 5, spans: true, maxDepth: 3, atoms: true, atomsInSpans: true, va: true}, "normal"},
-		{"J:all", 25, genOpts{maxLeaves: 7, maxWord: 8, brs: true, spans: true, maxDepth: 3, atoms: true, atomsInSpans: true, leftEdges: true, edgeSpaces: true, va: true}, "any"},
+		{"J:all", 20, genOpts{maxLeaves: 7, maxWord: 8, brs: true, spans: true, maxDepth: 3, atoms: true, atomsInSpans: true, leftEdges: true, edgeSpaces: true, va: true}, "any"},
 	}
 	for _, st := range jstages {
 		target := rn.n + jbudget*st.share/100
@@ -678,7 +679,13 @@ func Run(tier string, seed uint64, modelPath, repo string, out *res.Result) erro
 					c.ow, c.wb = "", "break-all"
 				}
 			}
-			p := genPara(cr, st.o, c.fs)
+			var p para
+			if st.mode == "nest" {
+				c.ow, c.wb = "", ""
+				p = genLastChildNest(cr, c.fs)
+			} else {
+				p = genPara(cr, st.o, c.fs)
+			}
 			out.Hit("stage:" + st.name)
 			if err := rn.judgeSweep(cr, p, c, cseed); err != nil {
 				return err
